@@ -1,7 +1,7 @@
 (* C07 and C09 dispatch *)
 From Coq Require Import List Arith NArith Bool.
 From AV Require Import Base.Util Base.ITree Spec.Lang Spec.FA Model.Codec Model.Decide Model.Product
-     Model.Build Model.Subset Model.Minimize.
+     Model.Build Model.Subset Model.Minimize Model.HK.
 Import ListNotations.
 
 Definition enc_diff' (r : res (option word)) : itree := enc_res (enc_opt enc_nats) r.
@@ -37,6 +37,13 @@ Definition d07 (op : nat) (t : itree) : itree :=
     match dec_nfa ta, dec_nfa tb with
     | Some a, Some b => L [enc_res Ib (nfa_eq_m a b); enc_res Ib (nfa_ne_m a b); enc_res Ib (nfa_eq_m b a);
                            enc_diff' (nfa_diff a b)]
+    | _, _ => bad_input
+    end
+  | 6, L [ta; tb] =>   (* C09: NFA.__eq__ as coded (Hopcroft-Karp mirror model, Model/HK.v), two schedules, both orders *)
+    match dec_nfa ta, dec_nfa tb with
+    | Some a, Some b =>
+      L [enc_res Ib (nfa_hk_eq a b); enc_res Ib (nfa_hk_eq_gen (fun _ _ => false) (rev (n_syms a)) a b);
+         enc_res Ib (nfa_hk_eq b a)]
     | _, _ => bad_input
     end
   | _, _ => bad_input
